@@ -24,6 +24,7 @@ RULE = (
     "in-memory pump that serialises both directions as a transport would; oracle: answered version in the server's supported set, equals the request's when supported, "
     "one new session carrying the answered version; end-to-end outcome is agreement on a version both sides support or VersionMismatchError; "
     "non-trivial = requested version unsupported/malformed, or client list not a subset of the server set; distinct = distinct case"
+    "; round 8: earlier connections of the same server (handshakes at other versions, some sessions dropped since): their records must be untouched by this handshake"
 )
 ASSUMPTIONS = [
     "the server's supported set is its configuration SUPPORTED_VERSIONS, read from the tree",
@@ -173,6 +174,23 @@ def check(case: Dict[str, Any]) -> Outcome:
             return await h.handle_message(first)
 
         _r0, prior_sid = run_virtual(go0)
+    # earlier connections of the same server: handshakes at various versions, some of those sessions since dropped
+    earlier: Dict[str, Any] = {}
+    for op in case.get("history", []):
+        if op[0] == "init":
+            m0 = parse_message({"jsonrpc": "2.0", "id": "h", "method": "initialize", "params": {"protocolVersion": op[1], "capabilities": {}, "clientInfo": {"name": "earlier", "version": "0"}}})
+
+            async def goh(m0=m0):
+                return await h.handle_message(m0)
+
+            r0, s0_ = run_virtual(goh)
+            w0 = json.loads(r0.model_dump_json(exclude_none=True)) if r0 is not None else {}
+            if s0_ is not None and isinstance(w0.get("result"), dict):
+                earlier[s0_] = w0["result"].get("protocolVersion")
+        elif op[0] == "drop" and earlier:
+            gone = list(earlier)[op[1] % len(earlier)]
+            h.session_manager.delete_session(gone)
+            earlier.pop(gone)
     before = set(h.session_manager.list_sessions().keys())
 
     async def go():
@@ -187,7 +205,7 @@ def check(case: Dict[str, Any]) -> Outcome:
     is_str = isinstance(v, str)
     supported_req = is_str and v in sup
     out.nontrivial = not supported_req
-    out.classes = (("re-initialize",) if case.get("prior") else ()) + (
+    out.classes = (("re-initialize",) if case.get("prior") else ()) + (("earlier-connections",) if case.get("history") else ()) + (
         "req:" + ("absent" if v == ABSENT else ("supported" if supported_req else ("date" if is_str and len(v) == 10 else ("string" if is_str else "nonstring")))),
         "clientInfo" if client_info != ABSENT else "no-clientInfo",
     )
@@ -219,6 +237,14 @@ def check(case: Dict[str, Any]) -> Outcome:
     for k_, s_ in after.items():
         if s_.protocol_version not in sup:
             out.fail("session-records-unsupported-version", f"session {'(prior)' if k_ == prior_sid else '(new)'} carries {s_.protocol_version!r} after initialize({v!r})")
+            return out
+    for k_, v_ in earlier.items():
+        # what this handshake did must not touch what was agreed with the other connections
+        if k_ not in after:
+            out.fail("earlier-session-vanished-at-a-later-handshake", f"session answered {v_!r} is gone after initialize({v!r})")
+            return out
+        if not strict_eq(after[k_].protocol_version, v_):
+            out.fail("earlier-session-version-changed-by-a-later-handshake", f"a connection answered {v_!r} now records {after[k_].protocol_version!r} after initialize({v!r}) on another connection")
             return out
     new = [s for k, s in after.items() if k not in before]
     if prior_sid is not None and len(new) == 0:
@@ -305,6 +331,9 @@ def job_dates(col: Collector, seed: int, tier: str, shard: int, nshards: int) ->
         case = {"version": v, "clientInfo": {"name": "c", "version": "1"} if i % 2 else ABSENT, "how": "parse" if i % 3 else "direct", "id": i}
         if i % 5 == 0:
             case["prior"] = ["2025-06-18", "2025-03-26", "2024-11-05"][i % 3]
+        if i % 7 == 0:
+            vs_ = ["2025-06-18", "2025-03-26", "2024-11-05"]
+            case["history"] = [["init", vs_[i % 3]], ["init", vs_[(i + 1) % 3]], ["init", vs_[(i + 2) % 3]], ["drop", i % 3], ["init", vs_[(i // 7) % 3]], ["drop", (i // 3) % 3]][: 3 + (i // 7) % 4]
         col.record(case, check(case))
     if shard == 0:
         col.exhaustive_parts.append("all 74,400 calendar date strings 1990-01-01..2189-12-31 as requested protocolVersion")
@@ -340,6 +369,9 @@ def cases(draw):
     case = {"version": v, "clientInfo": ci, "how": draw(st.sampled_from(["parse", "direct"])), "id": draw(st.one_of(st.integers(0, 5), st.sampled_from(["a", "0"])))}
     if draw(st.integers(0, 2)) == 0:
         case["prior"] = draw(st.sampled_from(["2025-06-18", "2025-03-26", "2024-11-05"]))
+    if draw(st.integers(0, 2)) == 0:
+        hop = st.one_of(st.tuples(st.just("init"), st.sampled_from(["2025-06-18", "2025-03-26", "2024-11-05", "1999-01-01"])).map(list), st.tuples(st.just("drop"), st.integers(0, 5)).map(list))
+        case["history"] = draw(st.lists(hop, min_size=1, max_size=7))
     return case
 
 
